@@ -54,12 +54,12 @@ def prepare(run, debug=False):
 
 
 MORE_PROPS = {"theories/props/C15.v": ["theories/props/C15_state.v"],
-              "theories/props/C05.v": ["theories/props/C05_leaves.v"],
+              "theories/props/C05.v": ["theories/props/C05_leaves.v", "theories/props/C05_tokens.v"],
               "theories/props/C14.v": ["theories/props/C14_roundtrip.v"],
               "theories/props/C02.v": ["theories/props/C14_roundtrip.v"],
               "theories/props/C03.v": ["theories/props/C14_roundtrip.v", "theories/props/C03_shapes.v"],
               "theories/props/C01.v": ["theories/props/C01_depth.v"],
-              "theories/props/C16.v": ["theories/props/C16_errors.v"]}
+              "theories/props/C16.v": ["theories/props/C16_errors.v", "theories/props/C16_tokens.v"]}
 
 
 def prove(run, props_file, extra_targets=(), gen_targets=(), allow_axioms=()):
@@ -1494,6 +1494,14 @@ def check_c01(run, replay):
         pfam.soup_cases(seed_of(run), budget(run, 2000, 20000)) + pfam.bytes_cases(seed_of(run), budget(run, 2000, 20000))
     corpus = json.load(open(os.path.join(vlib.ROOT, "corpus", "unit_snippets.json")))
     general += [pfam.Case(s_, "corpus") for s_ in corpus]
+    general += site_corpus_cases()
+    # tokens cut off by the end of input, with multi-byte letters and digits in and after them
+    tails = ["1\u0663", "12\u0663\u0664", "4\uff12", "7\u0667\n", "0x\uff11", "1.\u0663", "1e\u0663", "x\u0663", "\u0663", "\U0001D7CE", "1\U0001D7CE",
+             "\"\u00e9", "'\u65e5", "`\U0001F600", "//\u65e5", "/*\u65e5", "a\u00e9", "\u65e5", "0\u65e5", "1_\u0663", ".5\u0663", "1i\u0663", "'\\u0663", "\"\\"]
+    for t_ in tails:
+        for pre in ("", "package p\n\nvar x = ", "x = ", "package p; func f() { return 4", "package p; var s = "):
+            general.append(pfam.Case(pre + t_, "F-tail"))
+            general.append(pfam.Case(pre + t_ + "}", "F-tail"))
     nest_small = nest_families([1, 2, 30, 62, 63, 64, 65, 95, 96, 97, 190, 191, 192, 193, 300])
     nest_big = nest_families([1000, 20000] if run.tier == "quick" else [1000, 20000, 200000])
     chains = chain_families(2000) + chain_families(100000)
